@@ -117,7 +117,7 @@ impl KeyedBlake2s {
         self.ctx.reset();
         if self.saved_key_len > 0 {
             self.ctx.h[0] ^= (self.saved_key_len as u32) << 8;
-            self.ctx.buf[..self.saved_key_len].copy_from_slice(&self.saved_key);
+            self.ctx.buf[..self.saved_key_len].copy_from_slice(&self.saved_key[..self.saved_key_len]);
             self.ctx.ctr = BUF_LEN as u64;
         }
     }
